@@ -36,12 +36,26 @@ Definition b_ok : block := Eval vm_compute in block_of w_ok.
 
 Ltac crunch := repeat split; vm_compute; reflexivity.
 
+(* `_fx Scope.deployed` is the deployed code *)
+Lemma tr_block_fx_deployed : tr_block_fx Scope.deployed = tr_block.
+Proof. reflexivity. Qed.
+Lemma trace_fx_deployed b : trace_fx Scope.deployed b = trace b.
+Proof. reflexivity. Qed.
+Lemma go_diags_fx_deployed c b all : go_diags_fx c Scope.deployed b all = go_diags c b all.
+Proof. reflexivity. Qed.
+
+(* class multi_local_order, REPAIRED (fixes/C07-multi-local-order.diff): `local a, b = 1, a`.  The code before the repair
+   (`Scope.no_fixes`) reported nothing; the code now in /repo reports what the reference demands: a is unused (type 4)
+   and the a of the initialiser is an undefined global (type 2) *)
 Lemma multi_local_witness :
   forall gbk : list N -> Z, exists b,
     parse_file gbk w_multi = PFile b /\ in_fragment b = true /\ pos_clean b = true /\ multi_local_order b = true /\
-    go_diags demo_cfg b [] = [] /\
+    go_diags_fx demo_cfg Scope.no_fixes b [] = [] /\
     diag_mem (4, L 1 6 1 7) (spec_diags demo_cfg b []) = true /\
-    diag_mem (2, L 1 16 1 17) (spec_diags demo_cfg b []) = true.
+    diag_mem (2, L 1 16 1 17) (spec_diags demo_cfg b []) = true /\
+    diag_mem (4, L 1 6 1 7) (go_diags demo_cfg b []) = true /\
+    diag_mem (2, L 1 16 1 17) (go_diags demo_cfg b []) = true /\
+    length (go_diags demo_cfg b []) = length (spec_diags demo_cfg b []).
 Proof. intro gbk. exists b_multi. crunch. Qed.
 
 Lemma pos_filter_witness :
@@ -62,6 +76,6 @@ Proof. intro gbk. exists b_later. crunch. Qed.
 
 Lemma guard_witness :
   forall gbk : list N -> Z, exists b,
-    parse_file gbk w_ok = PFile b /\ in_fragment b = true /\ classA_ok b = true /\ pos_clean b = true /\
+    parse_file gbk w_ok = PFile b /\ in_fragment b = true /\ pos_clean b = true /\
     go_diags demo_cfg b [] = [(2, L 4 6 4 7)] /\ spec_diags demo_cfg b [] = [(2, L 4 6 4 7)].
 Proof. intro gbk. exists b_ok. crunch. Qed.
